@@ -170,7 +170,7 @@ class EYAMLProcessor(Processor):
                 input=bval,
                 check=True,
                 shell=False
-            ).stdout.decode('ascii').rstrip()
+            ).stdout.decode('ascii').rstrip("\r\n")
         except CalledProcessError as ex:
             raise EYAMLCommandException(
                 f"The {self.eyaml} command cannot be run due to exit code:"
